@@ -951,7 +951,8 @@ fn c14_slice_shared_3ops() {
     c14_slice_shared_3ops_body(kani::any(), kani::any(), kani::any(), kani::any());
 }
 
-// (0 and 1 element in one harness exceeded 12 GB for the shared class: one harness each)
+// 1 element only: two-step sequences on an EMPTY Arc<[T]> exceed 12 GB in CBMC (measured twice); the empty shared slice
+// is covered by c14_slice_read (construct / read / drop) only.
 pub fn c14_slice_shared_all_body(which: u8, op1: u8, op2: u8) {
     slice_class(2, which, 1, 4, [op1, op2, 0], 2);
 }
@@ -961,16 +962,6 @@ pub fn c14_slice_shared_all_body(which: u8, op1: u8, op2: u8) {
 fn c14_slice_shared_all() {
     c14_slice_shared_all_body(kani::any(), kani::any(), kani::any());
 }
-pub fn c14_slice_shared_empty_body(which: u8, op1: u8, op2: u8) {
-    slice_class(2, which, 0, 3, [op1, op2, 0], 2);
-}
-#[cfg(kani)]
-#[kani::proof]
-#[kani::unwind(8)]
-fn c14_slice_shared_empty() {
-    c14_slice_shared_empty_body(kani::any(), kani::any(), kani::any());
-}
-
 // Send / Sync: the `unsafe impl`s are bounded by T: Send / T: Sync; this only pins down that the two instantiations the
 // crate uses are Send + Sync (compile-time); dropping on another thread is not modelled by Kani (no threads).
 fn _assert_send_sync<T: Send + Sync>() {}
